@@ -70,7 +70,23 @@ type Config struct {
 	// (redactions), and the library must not assume they do.
 	FirstVersion int
 	VersionStep  int
+
+	// LocMode selects the node positions. 0 (default): Location(id, version),
+	// never zero. LocZeros: the versions of a node cycle through Location,
+	// exactly 0/0, latitude 0 only, longitude 0 only (a node may sit on the
+	// equator, on the prime meridian or on both).
+	LocMode int
+
+	// ReverseWays gives child ways a node list that changes direction: a way
+	// version written without SetRefs takes the node list of the last visible
+	// version reversed, except every third version of the way, which keeps the
+	// direction. False (default): the list is kept as it is.
+	ReverseWays bool
 }
+
+// LocZeros is the Config.LocMode in which node versions also sit at 0/0, on the
+// equator and on the prime meridian.
+const LocZeros = 1
 
 // Change is one element version written by an upload.
 type Change struct {
@@ -223,6 +239,16 @@ func (w *World) Apply(u Upload) {
 		}
 		if c.ID.Type() == osm.TypeNode && v.Visible {
 			v.Lat, v.Lon = Location(c.ID, v.Version)
+			if w.cfg.LocMode == LocZeros {
+				switch len(e.vers) % 4 {
+				case 1:
+					v.Lat, v.Lon = 0, 0
+				case 2:
+					v.Lat = 0
+				case 3:
+					v.Lon = 0
+				}
+			}
 		}
 		if v.Visible && c.ID.Type() != osm.TypeNode {
 			if c.SetRefs {
@@ -231,6 +257,12 @@ func (w *World) Apply(u Upload) {
 				for j := n - 1; j >= 0; j-- { // last visible version's list
 					if e.vers[j].Visible {
 						v.Refs = e.vers[j].Refs
+						if w.cfg.ReverseWays && c.ID.Type() == osm.TypeWay && n%3 != 0 {
+							v.Refs = make([]osm.FeatureID, len(e.vers[j].Refs))
+							for a, r := range e.vers[j].Refs {
+								v.Refs[len(v.Refs)-1-a] = r
+							}
+						}
 						break
 					}
 				}
